@@ -283,6 +283,91 @@ def replaySigned (id : String) (gI : Graph) (rev : List Nat) (dim : Nat) (evs : 
   if ret.isSome && some r.weight != ret then return some s!"diff {id} literal-signed-loop weight model={r.weight} impl={ret}"
   return none
 
+/-- parse a schedule term `L a:b | S(l,r) | F(l,r)` (what the TBB stand-in logs for one `parallel_reduce`) -/
+partial def parseSchedAux (cs : List Char) : Option (Sched × List Char) :=
+  match cs with
+  | 'L' :: r =>
+    let a := r.takeWhile Char.isDigit
+    match r.dropWhile Char.isDigit with
+    | ':' :: r2 =>
+      let b := r2.takeWhile Char.isDigit
+      match (String.ofList a).toNat?, (String.ofList b).toNat? with
+      | some x, some y => some (.leaf x y, r2.dropWhile Char.isDigit)
+      | _, _ => none
+    | _ => none
+  | k :: '(' :: r =>
+    if k == 'S' || k == 'F' then
+      match parseSchedAux r with
+      | some (l, ',' :: r2) =>
+        match parseSchedAux r2 with
+        | some (rt, ')' :: r3) => some (if k == 'S' then .seq l rt else .fork l rt, r3)
+        | _ => none
+      | _ => none
+    else none
+  | _ => none
+
+def parseSched (s : String) : Option Sched :=
+  match parseSchedAux s.toList with
+  | some (t, []) => some t
+  | _ => none
+
+/-- the `sched <n> <term>` lines of a run under the TBB stand-in, in call order -/
+def parseScheds (rest : List (List String)) : List (Nat × Option Sched) :=
+  (rest.filter (fun l => l.head? == some "sched")).map fun l =>
+    ((l.getD 1 "").toNat?.getD 0, parseSched (l.getD 2 ""))
+
+/-- **literal replay of a TBB variant under the stand-in scheduler**: the schedule of every `parallel_reduce` of the run is
+reported as a term of `Sched`; the literal models (`mcbSignedTbbH` on literal heaps; `lookupTbb` for the tree variants)
+executed under exactly those schedules must emit EXACTLY the cycles the C++ templates emitted under the stand-in. -/
+def replayTbb (id : String) (gI : Graph) (rev : List Nat) (var : String) (dim : Nat) (sup0 : List (List Nat))
+    (rest : List (List String)) (evs : List SearchEv) (cycI : List (List Nat)) (ret : Int) : Option String := Id.run do
+  let scheds := parseScheds rest
+  if scheds.any (fun p => p.2.isNone) then return some s!"diff {id} parse-sched"
+  let schedAt := fun (i : Nat) => ((scheds[i]?).bind (·.2)).getD (.leaf 0 0)
+  if var == "signed_tbb" then
+    -- which phases run a reduce: every phase whose support has more than one entry, in phase order
+    let sups := phaseSupports .signedTbb 0 sup0 cycI
+    let mut table : List Nat := []
+    let mut next := 0
+    for S in sups do
+      if S.length == 1 then table := table ++ [0]
+      else
+        table := table ++ [next]; next := next + 1
+    if next != scheds.length then return some s!"diff {id} literal-tbb-loop reduces model={next} impl={scheds.length}"
+    let sigma := fun (k : Nat) (S : List Nat) =>
+      let cands := evs.filter (fun e => e.phase == k && e.hiddenBranch && !e.emptySigned)
+      match cands.foldl (fun (best : Option SearchEv) e => match best with
+          | none => some e
+          | some b => if b.hidden.length < e.hidden.length then some e else some b) none with
+      | some e => e.hidden
+      | none => S
+    let r := mcbSignedCore .signedTbb dim sup0
+      (fun k S => signedPhaseSearchTbbH gI rev (sigma k S) S (schedAt (table.getD k 0)))
+    let mut k := 0
+    for (a, b) in r.cycles.zip cycI do
+      if a != b then return some s!"diff {id} literal-tbb-loop phase {k} model=[{showNats a}] impl=[{showNats b}]"
+      k := k + 1
+    if r.cycles.length != cycI.length then return some s!"diff {id} literal-tbb-loop phases"
+    if r.weight != ret then return some s!"diff {id} literal-tbb-loop weight model={r.weight} impl={ret}"
+    return none
+  else
+    -- tree variants: one reduce per phase
+    if scheds.length != dim then return some s!"diff {id} literal-tbb-loop reduces model={dim} impl={scheds.length}"
+    let scs : List (Nat × Nat × Nat × Int) := (rest.filter (fun l => l.head? == some "sc")).filterMap fun l =>
+      match l.tail with
+      | [t, s, e, w] => do some ((← t.toNat?), (← s.toNat?), (← e.toNat?), (← w.toInt?))
+      | _ => none
+    let (trees, _) := if var == "fvs_tbb" then fvsCands gI ((findNats "fvs" rest).getD []) else isoCands gI
+    let obs : List Cand := scs.map fun (t, _, e, w) => { tree := t, edge := e, weight := w }
+    let r := mcbTreesCore dim (fun k S => lookupTbb gI trees obs S (schedAt k))
+    let mut k := 0
+    for (a, b) in r.cycles.zip cycI do
+      if a != b then return some s!"diff {id} literal-tbb-loop phase {k} model=[{showNats a}] impl=[{showNats b}]"
+      k := k + 1
+    if r.cycles.length != cycI.length then return some s!"diff {id} literal-tbb-loop phases"
+    if r.weight != ret then return some s!"diff {id} literal-tbb-loop weight model={r.weight} impl={ret}"
+    return none
+
 /-- C01/C02: the implementation's cycles are replayed through the literal support bookkeeping -/
 def handleExact (c : Case) : String := Id.run do
   match parseGraph c.body with
@@ -317,6 +402,11 @@ def handleExact (c : Case) : String := Id.run do
         let mut lit := 0
         if (var == "fvs" || var == "iso") && (findLine "nsc" rest).isSome then
           match replayTrees c.id gI var dim rest cycI (some ret) with
+          | some d => return d
+          | none => lit := 1
+        if (var == "signed_tbb" || var == "fvs_tbb" || var == "iso_tbb") && (findLine "shim" rest).isSome
+            && (var != "signed_tbb" || !evs.isEmpty || dim == 0) then
+          match replayTbb c.id gI rev var dim sup0 rest evs cycI ret with
           | some d => return d
           | none => lit := 1
         if var == "signed" && (!evs.isEmpty || dim == 0) then
